@@ -593,6 +593,22 @@ fn var_group(e: &mut Emitter, r: &mut Rng, kind: AirKind, want: &[usize], max_m:
         e.count(&format!("variable mode: proof length M-{}", big - d));
         variants(e, r, &o, &inst, per_class, thorough || d == big || d == extra_full);
     }
+    // a SINGLETON range (min = max): the random accesses that tie `degree_bits` to the proof's shape
+    // select from one element and constrain nothing (F-C11-4); only an explicit bound rejects a wrong
+    // degree. An all-zero Fibonacci trace has a zero quotient, so the quotient check cannot notice it.
+    if matches!(kind, AirKind::Fib) {
+        if let Some(o1) = try_build(e, &src, &config, big, Some(big), log) {
+            let (rows, pis) = fibonacci_trace(1 << big, F::ZERO, F::ZERO);
+            if let Some(inst) = honest(e, "c11", &src.air, &config, vp.clone(), &rows, &pis, &format!("fibonacci, all-zero trace (variable mode {big}..={big})")) {
+                let (circ, _) = circuit_verdict(&o1, &inst.proof, big);
+                if circ != "ACCEPT" { e.oracle_failures.push(format!("singleton variable-degree circuit rejects an honest proof of its own length: {}", inst.what)); }
+                for wrong in [big - 1, big + 1] {
+                    if wrong == 0 { continue; }
+                    expect_reject(e, &o1, &inst, &format!("wrong pis_degree_bits (variable, min = max): {wrong} instead of {big}"), &inst.proof, wrong);
+                }
+            }
+        }
+    }
     // just outside the supported range. Below the minimum the proof is valid natively; the circuit
     // does not claim to support it (counted, not judged). Above the maximum it cannot be assigned.
     if m >= 2 && admissible(&config, &[m - 1]) {
